@@ -327,3 +327,153 @@ func (rs *reqState) probeOutcome() probeOutcome {
 	}
 	return probeOutcome{Other: fmt.Sprintf("HTTP %d grpc-status %v %q body %q", resp.Status, cv.Status.Code, cv.Status.Message, string(resp.Body[:min(len(resp.Body), 160)]))}
 }
+
+// ---- history independence -------------------------------------------------------------
+
+// refResult compares what the history's final snapshot routes with what a
+// fresh Mux routes after registering, once and in a canonical order, exactly
+// what the history left registered (larking's own registration code is the
+// reference: the routing state must be a function of the live set, not of how
+// it was reached).
+type refResult struct {
+	Skipped string   // why no comparison was made ("" = compared)
+	Err     string   // the reference registration failed
+	Got     []string // larking.VerifRoutes of the history's final snapshot
+	Want    []string // ... of the reference
+	Live    string   // what was registered on the reference
+}
+
+func (mr *muxRun) referenceCheck(world *World) *refResult {
+	out := &refResult{}
+	var locals []string
+	seenLocal := map[string]bool{}
+	advOf := map[string][]string{} // target -> what it advertised at its last successful registration
+	groups := []*registrar{mr.registrars[0]}
+	if mr.pre != nil {
+		groups = []*registrar{mr.pre, mr.registrars[0]}
+	}
+	if mr.sc.Local != nil {
+		for _, s := range mr.sc.Local {
+			if s != "-" && !seenLocal[s] {
+				seenLocal[s] = true
+				locals = append(locals, s)
+			}
+		}
+	} else {
+		for _, s := range localServices {
+			seenLocal[s] = true
+			locals = append(locals, s)
+		}
+	}
+	for _, g := range groups {
+		for _, rr := range g.res {
+			if !rr.Done || rr.Panic != nil {
+				out.Skipped = "an operation did not complete"
+				return out
+			}
+			switch rr.Op.Kind {
+			case "regsvc":
+				if rr.Err == nil {
+					// (a local service registered twice has two handlers: the
+					// reference registers it as often as the history did)
+					locals = append(locals, rr.Op.Service)
+				}
+			case "regconn":
+				if rr.Op.Fail == "dead" {
+					out.Skipped = "a backend was killed: it cannot be registered again on the reference"
+					return out
+				}
+				if rr.Err == nil {
+					advOf[rr.Op.Target] = append([]string{}, rr.AdvAt...)
+				}
+			case "drop":
+				delete(advOf, rr.Op.Target)
+			}
+		}
+	}
+	sort.Strings(locals)
+	var targets []string
+	for t := range advOf {
+		targets = append(targets, t)
+	}
+	sort.Strings(targets)
+	ref, err := larking.NewMux(muxOptions(mr.sc, world)...)
+	if err != nil {
+		out.Err = "NewMux: " + err.Error()
+		return out
+	}
+	var live []string
+	for _, svc := range locals {
+		live = append(live, "local="+svc)
+		if err := larking.VerifRegisterService(ref, world.serviceDesc(svc), world); err != nil {
+			out.Err = "RegisterService(" + svc + ") on the reference: " + err.Error()
+			out.Live = strings.Join(live, " ")
+			return out
+		}
+	}
+	for _, t := range targets {
+		b := mr.backendByTag(t)
+		b.provider.set(advOf[t])
+		live = append(live, t+"="+strings.Join(advOf[t], ","))
+		ctx, cancel := context.WithTimeout(context.Background(), 5*time.Second)
+		err := ref.RegisterConn(ctx, b.cc)
+		cancel()
+		if err != nil {
+			out.Err = "RegisterConn(" + t + ") on the reference: " + err.Error()
+			out.Live = strings.Join(live, " ")
+			return out
+		}
+	}
+	out.Live = strings.Join(live, " ")
+	routes := func(m *larking.Mux) []string {
+		if l := larking.VerifRoutes(larking.VerifSnapshot(m)); len(l) > 0 {
+			return l
+		}
+		return []string{"conns 0"} // nothing was ever published: routes nothing
+	}
+	out.Got, out.Want = routes(mr.mux), routes(ref)
+	return out
+}
+
+// diff lists the lines present on one side only.
+func (r *refResult) diff() (extra, missing []string) {
+	want := map[string]int{}
+	for _, l := range r.Want {
+		want[l]++
+	}
+	for _, l := range r.Got {
+		if want[l] > 0 {
+			want[l]--
+		} else {
+			extra = append(extra, l)
+		}
+	}
+	got := map[string]int{}
+	for _, l := range r.Got {
+		got[l]++
+	}
+	for _, l := range r.Want {
+		if got[l] > 0 {
+			got[l]--
+		} else {
+			missing = append(missing, l)
+		}
+	}
+	return
+}
+
+func oracleReference(prop string, mr *muxRun, hist string, cnt *[core.NumCounters]int) *Violation {
+	r := mr.ref
+	if r == nil || r.Skipped != "" {
+		return nil
+	}
+	if r.Err != "" {
+		return violationf(prop, "live-set-not-registrable", "reference", "history [%s]: what the history left registered (%s) could not be registered on an empty mux: %s", hist, r.Live, r.Err)
+	}
+	cnt[cReferenceCompared]++
+	extra, missing := r.diff()
+	if len(extra)+len(missing) > 0 {
+		return violationf(prop, "state-depends-on-history", "reference", "history [%s] left {%s} registered, but its final snapshot does not route what a fresh registration of the same set routes:\n  only after the history: %v\n  only on the fresh mux:  %v", hist, r.Live, extra, missing)
+	}
+	return nil
+}
